@@ -221,21 +221,29 @@ Section UndoProofs.
     - simpl In. rewrite IHn. lia.
   Qed.
 
-  Lemma reopen_ok s : J s -> off < T -> J (ustep B T off s UReopen).
+  Lemma key_cell k : kpos k mod T = 0 -> (kpos k + off) / T = kpos k / T + q.
   Proof.
-    intros Js Hsmall. cbn [ustep].
-    assert (Hq0 : q = 0) by (unfold q; apply N.div_small; exact Hsmall).
-    assert (RW : forall c, memN c (reopen_written B T (u_keys s)) = true <->
-                           exists k, In k (u_keys s) /\ kpos k / T <= c < kpos k / T + klen k / T).
+    intros A. pose proof (N.div_mod (kpos k) T ltac:(lia)) as E. rewrite A in E.
+    pose proof off_qr. pose proof r_lt.
+    symmetry. apply N.div_unique with r; [assumption|]. lia.
+  Qed.
+
+  Lemma reopen_ok s : J s -> J (ustep B T off s UReopen).
+  Proof.
+    intros Js. cbn [ustep].
+    assert (RW : forall c, memN c (reopen_written B T off (u_keys s)) = true <->
+                           exists k, In k (u_keys s) /\ kpos k / T + q <= c < kpos k / T + q + klen k / T).
     { intros c. rewrite memN_true. unfold reopen_written. rewrite in_flat_map. split.
       - intros (k & K1 & K2). exists k. split; auto. apply cells_of_In in K2.
-        destruct (j_keys _ Js k K1) as (Q1 & Q2 & Q3 & Q4). unfold kpos, klen in *.
+        destruct (j_keys _ Js k K1) as (Q1 & Q2 & Q3 & Q4).
+        fold (kpos k) in K2. rewrite (key_cell k Q3) in K2. unfold kpos, klen in *.
         assert (E : (N.of_nat (length (k_data k)) + T - 1) / T = N.of_nat (length (k_data k)) / T).
         { pose proof (N.div_mod (N.of_nat (length (k_data k))) T ltac:(lia)) as E1. rewrite Q2 in E1.
           symmetry. apply N.div_unique with (T - 1); lia. }
         rewrite N2Nat.id, E in K2. exact K2.
       - intros (k & K1 & K2). exists k. split; auto. apply cells_of_In.
-        destruct (j_keys _ Js k K1) as (Q1 & Q2 & Q3 & Q4). unfold kpos, klen in *.
+        destruct (j_keys _ Js k K1) as (Q1 & Q2 & Q3 & Q4).
+        fold (kpos k). rewrite (key_cell k Q3). unfold kpos, klen in *.
         assert (E : (N.of_nat (length (k_data k)) + T - 1) / T = N.of_nat (length (k_data k)) / T).
         { pose proof (N.div_mod (N.of_nat (length (k_data k))) T ltac:(lia)) as E1. rewrite Q2 in E1.
           symmetry. apply N.div_unique with (T - 1); lia. }
@@ -245,22 +253,22 @@ Section UndoProofs.
       pose proof (N.div_mod (kpos k) T ltac:(lia)) as E1. rewrite Q3 in E1.
       pose proof (N.div_mod (klen k) T ltac:(lia)) as E2. rewrite Q2 in E2.
       pose proof (N.div_mod x T ltac:(lia)) as E3. pose proof (N.mod_lt x T ltac:(lia)).
-      unfold kcov. set (a := kpos k / T) in *. set (l := klen k / T) in *. set (q := x / T) in *. nia. }
+      unfold kcov. set (a := kpos k / T) in *. set (l := klen k / T) in *. set (qq := x / T) in *. nia. }
     constructor; cbn [u_keys u_dsk u_written].
     - apply (j_keys _ Js).
     - intros o Ho. apply (j_dsk _ Js). destruct Ho as [Ho|Ho]; auto. right.
-      rewrite Hq0, N.add_0_r in *.
-      destruct (memN ((o - off) / T) (u_written s)) eqn:M; auto.
-      destruct (j_cov _ Js _ (o - off) M ltac:(rewrite Hq0; lia)) as (k & K1 & K2).
-      assert (memN ((o - off) / T) (reopen_written B T (u_keys s)) = true); [|congruence].
-      apply RW. exists k. split; auto. apply COV; auto. apply (j_keys _ Js); auto.
+      destruct (memN ((o - off) / T + q) (u_written s)) eqn:M; auto.
+      destruct (j_cov _ Js _ (o - off) M eq_refl) as (k & K1 & K2).
+      assert (memN ((o - off) / T + q) (reopen_written B T off (u_keys s)) = true); [|congruence].
+      apply RW. exists k. split; auto.
+      pose proof (proj1 (COV k (o - off) (j_keys _ Js k K1)) K2). lia.
     - intros c x Hc Hx. apply RW in Hc. destruct Hc as (k & K1 & K2). exists k. split; auto.
-      apply COV; [apply (j_keys _ Js); auto|]. rewrite Hq0, N.add_0_r in Hx. subst c. exact K2.
+      apply COV; [apply (j_keys _ Js); auto|]. lia.
   Qed.
 
-  Lemma ustep_ok s o : J s -> (o = UReopen -> off < T) -> J (ustep B T off s o).
+  Lemma ustep_ok s o : J s -> J (ustep B T off s o).
   Proof.
-    intros Js Hre. destruct o.
+    intros Js. destruct o.
     - cbn [ustep]. destruct (save_ok s blk (cnt * B) Js) as (A1 & A2 & A3). cbv zeta in *.
       apply real_write_ok; auto. intros x Hx. apply A3.
       rewrite firstn_length in Hx. lia.
@@ -278,9 +286,9 @@ Section UndoProofs.
     - apply reopen_ok; auto.
   Qed.
 
-  Lemma urun_ok : forall ops s, J s -> Forall (fun o => o = UReopen -> off < T) ops -> J (urun B T off s ops).
+  Lemma urun_ok : forall ops s, J s -> J (urun B T off s ops).
   Proof.
-    induction ops as [|o rr IH]; intros s Js F; cbn; auto. inversion F; subst.
+    induction ops as [|o rr IH]; intros s Js; cbn; auto.
     apply IH; auto. apply ustep_ok; auto.
   Qed.
 
@@ -351,23 +359,20 @@ Section UndoProofs.
   Qed.
 End UndoProofs.
 
-Definition reopen_ok_ops (T off : N) (ops : list uop) : Prop :=
-  Forall (fun o => o = UReopen -> off < T) ops.
-
 Theorem undo_restores_all : forall B T off d0 ops,
-  0 < B -> 0 < T -> T mod B = 0 -> reopen_ok_ops T off ops ->
+  0 < B -> 0 < T -> T mod B = 0 ->
   forall o, e2undo B off (urun B T off (uinit d0) ops) o = d0 o.
 Proof.
-  intros B T off d0 ops HB HT HD HR. apply (e2undo_restores B T off HB HT HD d0).
+  intros B T off d0 ops HB HT HD. apply (e2undo_restores B T off HB HT HD d0).
   apply urun_ok; auto. apply J_init.
 Qed.
 
 Theorem replay_order_irrelevant_all : forall B T off d0 ops keys',
-  0 < B -> 0 < T -> T mod B = 0 -> reopen_ok_ops T off ops ->
+  0 < B -> 0 < T -> T mod B = 0 ->
   let s := urun B T off (uinit d0) ops in
   (forall k, In k keys' <-> In k (u_keys s)) ->
   forall o, replay_keys B off keys' (u_dsk s) o = d0 o.
 Proof.
-  intros B T off d0 ops keys' HB HT HD HR s P. apply (replay_order_irrelevant B T off HB HT HD d0); auto.
+  intros B T off d0 ops keys' HB HT HD s P. apply (replay_order_irrelevant B T off HB HT HD d0); auto.
   apply urun_ok; auto. apply J_init.
 Qed.
